@@ -124,29 +124,45 @@ type solveJob struct {
 	res SolveResult
 }
 
-// solveAll discharges obligations in parallel.
+// solveAll discharges obligations in parallel. Stage 1: z3-new alone with a
+// short limit; stage 2: all three solvers race (three cores per job).
 func solveAll(obls []*Obligation, tier string, par int, dumpDir string) map[*Obligation]SolveResult {
 	out := map[*Obligation]SolveResult{}
 	var mu sync.Mutex
-	sem := make(chan struct{}, par)
+	cores := make(chan struct{}, par)
+	acquire := func(n int) {
+		for i := 0; i < n; i++ {
+			cores <- struct{}{}
+		}
+	}
+	release := func(n int) {
+		for i := 0; i < n; i++ {
+			<-cores
+		}
+	}
+	var raceMu sync.Mutex // serialises multi-core acquisition (no deadlock between racers)
 	var wg sync.WaitGroup
-	quickT, slowT := 3, 10
+	quickT, slowT := 2, 20
 	if tier == "thorough" {
-		quickT, slowT = 10, 60
+		quickT, slowT = 5, 120
 	}
 	for _, o := range obls {
 		wg.Add(1)
-		sem <- struct{}{}
 		go func(o *Obligation) {
 			defer wg.Done()
-			defer func() { <-sem }()
 			script := o.scriptText(true)
 			if dumpDir != "" {
 				os.WriteFile(filepath.Join(dumpDir, sanitize(o.Name)+".smt2"), []byte(script), 0644)
 			}
+			acquire(1)
 			res := runSolver(solvers[0], script, quickT)
+			release(1)
 			if res.Status != "unsat" && res.Status != "sat" {
+				raceMu.Lock()
+				acquire(3)
+				raceMu.Unlock()
 				r2 := race(script, slowT, solvers)
+				release(3)
 				if r2.Status == "unsat" || r2.Status == "sat" || res.Status == "error" {
 					r2.Seconds += res.Seconds
 					res = r2
@@ -155,6 +171,7 @@ func solveAll(obls []*Obligation, tier string, par int, dumpDir string) map[*Obl
 			if tier == "thorough" && res.Status == "unsat" && o.Kind != "cover" {
 				// agreement: a second, independent solver must confirm
 				res.Agree = []string{res.Solver}
+				acquire(1)
 				for _, sd := range solvers {
 					if sd.name == res.Solver {
 						continue
@@ -170,6 +187,7 @@ func solveAll(obls []*Obligation, tier string, par int, dumpDir string) map[*Obl
 						break
 					}
 				}
+				release(1)
 			}
 			if res.Status == "sat" {
 				res.Model = parseModel(res.Output, o)
